@@ -65,7 +65,11 @@ def run(m):
                     else:
                         bad.append(msg)
             if bad:
+                if m.get("residual"):
+                    return m, "OK", ""  # listed limitation (see DESIGN 11.5); kept so that it is re-measured on every run
                 return m, "FALSE-ALARM", "\n".join(bad)
+            if m.get("residual"):
+                return m, "FALSE-ALARM", "listed as a residual limitation but every check is silent now: remove the 'residual' mark"
             return m, "OK", ""
         out = subprocess.run([TCHK, "-property", m["property"], "-tier", "quick", "-no-evidence"], env=env, capture_output=True, text=True)
         text = out.stdout + out.stderr
